@@ -136,9 +136,80 @@ done:
 	for (int j = 0; j < MB; j++) { bn_free(Ms[j]); g2_free(Y[j]); }
 }
 
+/* ---------------------------------------------------------------- context-hiding multi-key homomorphic signatures */
+/* cmlhs: cid, S, L, coefficient pattern (5 = the zero function), bls flag, seed */
+static void do_cmlhs(vf_case *c) {
+	long cid = mpz_get_si(c->v[0]); size_t S = mpz_get_ui(c->v[1]), L = mpz_get_ui(c->v[2]); int pat = (int)mpz_get_si(c->v[3]), bls = (int)mpz_get_si(c->v[4]); unsigned long seed = mpz_get_ui(c->v[5]); int th, v;
+	if (!select_pc(cid)) { vf_fail(NULL, "parameter set refused"); return; } seed_drbg(seed);
+	enum { KL = RLC_MD_LEN }; uint8_t k[MS][KL]; const char *data = "database-identifier", *data2 = "database-identifies";
+	bn_t n, m, m2, msg[MS][ML], sk[MS], d[MS], x[MS][ML], fsk, fd; g1_t _r, h, as[MS], cs[MS], sig[MS], a[MS][ML], cc[MS][ML], r[MS][ML], t1, G, keep1; g2_t _s, s[MS][ML], pk[MS], y[MS], z[MS], t2, G2, keep2, fpk, fy; gt_t hsv[MS][ML + 1], vk, fhs[ML + 1]; const gt_t *hs[MS];
+	dig_t f[MS][ML], f2[MS][ML]; const dig_t *fp[MS], *fp2[MS]; size_t flen[MS]; int label[ML], label2[ML]; bn_t fx[ML]; uint8_t fk[KL];
+	bn_null(n); bn_new(n); bn_null(m); bn_new(m); bn_null(m2); bn_new(m2); bn_null(fsk); bn_new(fsk); bn_null(fd); bn_new(fd); g1_null(_r); g1_new(_r); g1_null(h); g1_new(h); g1_null(t1); g1_new(t1); g1_null(G); g1_new(G); g1_null(keep1); g1_new(keep1); g2_null(_s); g2_new(_s); g2_null(t2); g2_new(t2); g2_null(G2); g2_new(G2); g2_null(keep2); g2_new(keep2); g2_null(fpk); g2_new(fpk); g2_null(fy); g2_new(fy); gt_null(vk); gt_new(vk);
+	for (size_t i = 0; i < MS; i++) { bn_null(sk[i]); bn_new(sk[i]); bn_null(d[i]); bn_new(d[i]); g1_null(as[i]); g1_new(as[i]); g1_null(cs[i]); g1_new(cs[i]); g1_null(sig[i]); g1_new(sig[i]); g2_null(pk[i]); g2_new(pk[i]); g2_null(y[i]); g2_new(y[i]); g2_null(z[i]); g2_new(z[i]); hs[i] = (const gt_t *)hsv[i]; fp[i] = f[i]; fp2[i] = f2[i]; flen[i] = L;
+		for (size_t j = 0; j <= ML; j++) { gt_null(hsv[i][j]); gt_new(hsv[i][j]); } for (size_t j = 0; j < ML; j++) { bn_null(msg[i][j]); bn_new(msg[i][j]); bn_null(x[i][j]); bn_new(x[i][j]); g1_null(a[i][j]); g1_new(a[i][j]); g1_null(cc[i][j]); g1_new(cc[i][j]); g1_null(r[i][j]); g1_new(r[i][j]); g2_null(s[i][j]); g2_new(s[i][j]); f[i][j] = f2[i][j] = pat == 5 ? 0 : coef(pat, (int)i, (int)j); } }
+	for (size_t j = 0; j <= ML; j++) { gt_null(fhs[j]); gt_new(fhs[j]); } for (size_t j = 0; j < ML; j++) { bn_null(fx[j]); bn_new(fx[j]); label[j] = label2[j] = (int)j; }
+	pc_get_ord(n); g1_get_gen(G); g2_get_gen(G2); VF_TRY(th, v = cp_cmlhs_init(h)); if (th || v != RLC_OK) { vf_fail(NULL, "cp_cmlhs_init failed"); goto done; }
+	VF_TRY(th, v = cp_cmlhs_gen(fx, fhs, L, fk, KL, fsk, fpk, fd, fy, bls));
+	for (size_t i = 0; i < S; i++) { VF_TRY(th, v = cp_cmlhs_gen(x[i], hsv[i], L, k[i], KL, sk[i], pk[i], d[i], y[i], bls)); if (th || v != RLC_OK) { vf_fail(NULL, "cp_cmlhs_gen failed"); goto done; }
+		for (size_t j = 0; j < L; j++) { if ((i + j + (size_t)pat) % 5 == 0) bn_zero(msg[i][j]); else if ((i + j + (size_t)pat) % 5 == 1) bn_sub_dig(msg[i][j], n, 1); else bn_rand_mod(msg[i][j], n);
+			VF_TRY(th, v = cp_cmlhs_sig(sig[i], z[i], a[i][j], cc[i][j], r[i][j], s[i][j], msg[i][j], data, label[j], x[i][j], h, k[i], KL, d[i], sk[i], bls)); if (th || v != RLC_OK) { vf_fail(NULL, "cp_cmlhs_sig failed"); goto done; } } }
+	g1_set_infty(_r); g2_set_infty(_s); { mpz_t q, acc, t; mpz_inits(q, acc, t, NULL); vf_bn_get(q, n); mpz_set_ui(acc, 0);
+		for (size_t i = 0; i < S; i++) { VF_TRY(th, v = cp_cmlhs_fun(as[i], cs[i], (const g1_t *)a[i], (const g1_t *)cc[i], f[i], L)); if (th || v != RLC_OK) { vf_fail(NULL, "cp_cmlhs_fun failed"); goto done; } VF_TRY(th, v = cp_cmlhs_evl(t1, t2, (const g1_t *)r[i], (const g2_t *)s[i], f[i], L)); if (th || v != RLC_OK) { vf_fail(NULL, "cp_cmlhs_evl failed"); goto done; } g1_add(_r, _r, t1); g2_add(_s, _s, t2);
+			for (size_t j = 0; j < L; j++) { vf_bn_get(t, msg[i][j]); mpz_mul_ui(t, t, (unsigned long)f[i][j]); mpz_add(acc, acc, t); } }
+		mpz_mod(acc, acc, q); vf_bn_set(m, acc); mpz_clears(q, acc, t, NULL); }
+	g1_norm(_r, _r); g2_norm(_s, _s);
+	char d2[160];
+#define CVER(R, SS, SIG, Z, A, C, M, DATA, LAB, HS, F, Y, PK) cp_cmlhs_ver(R, SS, (const g1_t *)SIG, (const g2_t *)Z, (const g1_t *)A, (const g1_t *)C, M, DATA, h, LAB, HS, F, flen, (const g2_t *)Y, (const g2_t *)PK, S, bls)
+#define CONV(R, SS, SIG, Z, A, C, M, DATA, Y, PK) cp_cmlhs_onv(R, SS, (const g1_t *)SIG, (const g2_t *)Z, (const g1_t *)A, (const g1_t *)C, M, DATA, h, vk, (const g2_t *)Y, (const g2_t *)PK, S, bls)
+	snprintf(d2, sizeof d2, "the honestly evaluated signature (%zu signers, %zu labels, coefficient pattern %d, %s)", S, L, pat, bls ? "BLS" : "ECDSA"); ACC("cp_cmlhs_ver", CVER(_r, _s, sig, z, as, cs, m, data, label, hs, fp, y, pk), d2);
+	VF_TRY(th, cp_cmlhs_off(vk, h, label, hs, fp, flen, S)); if (th) vf_fail(NULL, "cp_cmlhs_off raised"); else { ACC("cp_cmlhs_onv", CONV(_r, _s, sig, z, as, cs, m, data, y, pk), d2);
+		bn_add_dig(m2, m, 1); bn_mod(m2, m2, n); REJ("cp_cmlhs_onv", CONV(_r, _s, sig, z, as, cs, m2, data, y, pk), "combined message + 1"); g1_add(t1, _r, G); g1_norm(t1, t1); REJ("cp_cmlhs_onv", CONV(t1, _s, sig, z, as, cs, m, data, y, pk), "R + G"); REJ("cp_cmlhs_onv", CONV(_r, _s, sig, z, as, cs, m, data2, y, pk), "another data set name"); }
+	bn_add_dig(m2, m, 1); bn_mod(m2, m2, n); REJ("cp_cmlhs_ver", CVER(_r, _s, sig, z, as, cs, m2, data, label, hs, fp, y, pk), "combined message + 1");
+	g1_add(t1, _r, G); g1_norm(t1, t1); REJ("cp_cmlhs_ver", CVER(t1, _s, sig, z, as, cs, m, data, label, hs, fp, y, pk), "R + G");
+	g2_add(t2, _s, G2); g2_norm(t2, t2); REJ("cp_cmlhs_ver", CVER(_r, t2, sig, z, as, cs, m, data, label, hs, fp, y, pk), "S + G2");
+	for (size_t i = 0; i < S; i++) { g1_copy(keep1, as[i]); g1_add(as[i], as[i], G); g1_norm(as[i], as[i]); snprintf(d2, sizeof d2, "signer %zu: A + G", i); REJ("cp_cmlhs_ver", CVER(_r, _s, sig, z, as, cs, m, data, label, hs, fp, y, pk), d2); g1_copy(as[i], keep1);
+		g1_copy(keep1, cs[i]); g1_add(cs[i], cs[i], G); g1_norm(cs[i], cs[i]); snprintf(d2, sizeof d2, "signer %zu: C + G", i); REJ("cp_cmlhs_ver", CVER(_r, _s, sig, z, as, cs, m, data, label, hs, fp, y, pk), d2); g1_copy(cs[i], keep1);
+		g2_copy(keep2, z[i]); g2_add(z[i], z[i], G2); g2_norm(z[i], z[i]); snprintf(d2, sizeof d2, "signer %zu: Z + G2", i); REJ("cp_cmlhs_ver", CVER(_r, _s, sig, z, as, cs, m, data, label, hs, fp, y, pk), d2); g2_copy(z[i], keep2);
+		g1_copy(keep1, sig[i]); if (bls) { g1_add(sig[i], sig[i], G); g1_norm(sig[i], sig[i]); } else fp_add_dig(sig[i]->x, sig[i]->x, 1); snprintf(d2, sizeof d2, "signer %zu: the signature on (Z, data set) altered", i); REJ("cp_cmlhs_ver", CVER(_r, _s, sig, z, as, cs, m, data, label, hs, fp, y, pk), d2); g1_copy(sig[i], keep1);
+		g2_copy(keep2, y[i]); g2_copy(y[i], fy); snprintf(d2, sizeof d2, "signer %zu: public element Y replaced by a foreign one", i); if (!g1_is_infty(cs[i])) /* a signer whose coefficients are all zero contributes C = O: e(C, Y) does not depend on Y */ REJ("cp_cmlhs_ver", CVER(_r, _s, sig, z, as, cs, m, data, label, hs, fp, y, pk), d2); g2_copy(y[i], keep2);
+		g2_copy(keep2, pk[i]); g2_copy(pk[i], fpk); snprintf(d2, sizeof d2, "signer %zu: signature public key replaced by a foreign one", i); REJ("cp_cmlhs_ver", CVER(_r, _s, sig, z, as, cs, m, data, label, hs, fp, y, pk), d2); g2_copy(pk[i], keep2);
+		for (size_t j = 0; j < L; j++) { f2[i][j] = f[i][j] + 1; snprintf(d2, sizeof d2, "coefficient f[%zu][%zu] + 1 at verification", i, j); REJ("cp_cmlhs_ver", CVER(_r, _s, sig, z, as, cs, m, data, label, hs, fp2, y, pk), d2); f2[i][j] = f[i][j]; } }
+	REJ("cp_cmlhs_ver", CVER(_r, _s, sig, z, as, cs, m, data2, label, hs, fp, y, pk), "another data set name");
+	if (L >= 2 && f[0][0] != f[0][1]) { label2[0] = 1; label2[1] = 0; REJ("cp_cmlhs_ver", CVER(_r, _s, sig, z, as, cs, m, data, label2, hs, fp, y, pk), "first two labels swapped at verification"); }
+done:
+	bn_free(n); bn_free(m); bn_free(m2); bn_free(fsk); bn_free(fd); g1_free(_r); g1_free(h); g1_free(t1); g1_free(G); g1_free(keep1); g2_free(_s); g2_free(t2); g2_free(G2); g2_free(keep2); g2_free(fpk); g2_free(fy); gt_free(vk);
+	for (size_t i = 0; i < MS; i++) { bn_free(sk[i]); bn_free(d[i]); g1_free(as[i]); g1_free(cs[i]); g1_free(sig[i]); g2_free(pk[i]); g2_free(y[i]); g2_free(z[i]); for (size_t j = 0; j <= ML; j++) gt_free(hsv[i][j]); for (size_t j = 0; j < ML; j++) { bn_free(msg[i][j]); bn_free(x[i][j]); g1_free(a[i][j]); g1_free(cc[i][j]); g1_free(r[i][j]); g2_free(s[i][j]); } }
+	for (size_t j = 0; j <= ML; j++) gt_free(fhs[j]); for (size_t j = 0; j < ML; j++) bn_free(fx[j]);
+}
+
+/* ---------------------------------------------------------------- Camenisch-Lysyanskaya block signatures */
+/* clb: cid, number of messages l (1..5), seed, message length */
+static void do_clb(vf_case *c) {
+	long cid = mpz_get_si(c->v[0]); size_t l = mpz_get_ui(c->v[1]); unsigned long seed = mpz_get_ui(c->v[2]); size_t len = mpz_get_ui(c->v[3]); int th, v;
+	if (!select_pc(cid)) { vf_fail(NULL, "parameter set refused"); return; } seed_drbg(seed);
+	bn_t t, u, vs[MB]; g1_t a, b, cc, As[MB], Bs[MB], G, keep; g2_t x, y, zs[MB], G2, keep2; uint8_t mbuf[MB][72], m2buf[72]; const uint8_t *ms[MB], *ms2[MB]; size_t ls[MB];
+	bn_null(t); bn_new(t); bn_null(u); bn_new(u); g1_null(a); g1_new(a); g1_null(b); g1_new(b); g1_null(cc); g1_new(cc); g1_null(G); g1_new(G); g1_null(keep); g1_new(keep); g2_null(x); g2_new(x); g2_null(y); g2_new(y); g2_null(G2); g2_new(G2); g2_null(keep2); g2_new(keep2);
+	for (int i = 0; i < MB; i++) { bn_null(vs[i]); bn_new(vs[i]); g1_null(As[i]); g1_new(As[i]); g1_null(Bs[i]); g1_new(Bs[i]); g2_null(zs[i]); g2_new(zs[i]); for (size_t k = 0; k < len; k++) mbuf[i][k] = (uint8_t)(i * 31 + k * 7 + 1); ms[i] = ms2[i] = mbuf[i]; ls[i] = len; }
+	g1_get_gen(G); g2_get_gen(G2);
+	VF_TRY(th, v = cp_clb_gen(t, u, vs, x, y, zs, l)); if (th || v != RLC_OK) { vf_fail(NULL, "cp_clb_gen(l = %zu) failed", l); goto done; }
+	VF_TRY(th, v = cp_clb_sig(a, As, b, Bs, cc, ms, ls, t, u, (const bn_t *)vs, l)); if (th || v != RLC_OK) { vf_fail(NULL, "cp_clb_sig(l = %zu) failed", l); goto done; }
+	char d2[128];
+#define BV(A_, AS_, B_, BS_, C_, MS_, X_, Y_, ZS_) cp_clb_ver(A_, (const g1_t *)AS_, B_, (const g1_t *)BS_, C_, MS_, ls, X_, Y_, (const g2_t *)ZS_, l)
+	snprintf(d2, sizeof d2, "the honest block signature on %zu messages of %zu bytes", l, len); ACC("cp_clb_ver", BV(a, As, b, Bs, cc, ms, x, y, zs), d2);
+	if (len) for (size_t i = 0; i < l; i++) { memcpy(m2buf, mbuf[i], len); m2buf[len / 2] ^= 0x10; ms2[i] = m2buf; snprintf(d2, sizeof d2, "message %zu with one bit flipped", i); REJ("cp_clb_ver", BV(a, As, b, Bs, cc, ms2, x, y, zs), d2); ms2[i] = mbuf[i]; }
+	if (l >= 2 && len) { ms2[0] = mbuf[1]; ms2[1] = mbuf[0]; REJ("cp_clb_ver", BV(a, As, b, Bs, cc, ms2, x, y, zs), "first two messages swapped"); ms2[0] = mbuf[0]; ms2[1] = mbuf[1]; }
+#define G1MUT(P, DESC) do { g1_copy(keep, P); g1_add(P, P, G); g1_norm(P, P); REJ("cp_clb_ver", BV(a, As, b, Bs, cc, ms, x, y, zs), DESC); g1_set_infty(P); REJ("cp_clb_ver", BV(a, As, b, Bs, cc, ms, x, y, zs), DESC " (identity)"); g1_copy(P, keep); } while (0)
+	G1MUT(a, "a + G"); G1MUT(b, "b + G"); G1MUT(cc, "c + G"); for (size_t i = 0; i + 1 < l; i++) { G1MUT(As[i], "an A_i + G"); G1MUT(Bs[i], "a B_i + G"); }
+#define G2MUT(P, DESC) do { g2_copy(keep2, P); g2_add(P, P, G2); g2_norm(P, P); REJ("cp_clb_ver", BV(a, As, b, Bs, cc, ms, x, y, zs), DESC); g2_copy(P, keep2); } while (0)
+	G2MUT(x, "public key X + G2"); G2MUT(y, "public key Y + G2"); for (size_t i = 0; i + 1 < l; i++) G2MUT(zs[i], "a public key Z_i + G2");
+	{ g1_t ia, ib, ic, iA[MB], iB[MB]; g1_null(ia); g1_new(ia); g1_null(ib); g1_new(ib); g1_null(ic); g1_new(ic); g1_set_infty(ia); g1_set_infty(ib); g1_set_infty(ic); for (int i = 0; i < MB; i++) { g1_null(iA[i]); g1_new(iA[i]); g1_null(iB[i]); g1_new(iB[i]); g1_set_infty(iA[i]); g1_set_infty(iB[i]); } REJ("cp_clb_ver", BV(ia, iA, ib, iB, ic, ms, x, y, zs), "the all-identity signature"); g1_free(ia); g1_free(ib); g1_free(ic); for (int i = 0; i < MB; i++) { g1_free(iA[i]); g1_free(iB[i]); } }
+done:
+	bn_free(t); bn_free(u); g1_free(a); g1_free(b); g1_free(cc); g1_free(G); g1_free(keep); g2_free(x); g2_free(y); g2_free(G2); g2_free(keep2); for (int i = 0; i < MB; i++) { bn_free(vs[i]); g1_free(As[i]); g1_free(Bs[i]); g2_free(zs[i]); }
+}
+
 static void run_case(vf_case *c) {
 	vf_nontrivial(); if (!vf_replaying) vf_stat_add("states", 1);
-	if (!strcmp(c->op, "etrs")) do_etrs(c); else if (!strcmp(c->op, "mklhs")) do_mklhs(c); else if (!strcmp(c->op, "mpss")) do_mpss(c); else vf_fail(NULL, "unknown op");
+	if (!strcmp(c->op, "etrs")) do_etrs(c); else if (!strcmp(c->op, "mklhs")) do_mklhs(c); else if (!strcmp(c->op, "mpss")) do_mpss(c); else if (!strcmp(c->op, "cmlhs")) do_cmlhs(c); else if (!strcmp(c->op, "clb")) do_clb(c); else vf_fail(NULL, "unknown op");
 }
 static vf_case K;
 static void enumerate(void) {
@@ -150,6 +221,10 @@ static void enumerate(void) {
 		vf_bound_done("multi-key-homomorphic-all-shapes"); }
 	if (vf_bound_on("multi-party-ps")) { static const long BL[] = {0, 1, 2, 5, 3}; for (unsigned ci = 0; ci < (vf_tier ? 2 : 1); ci++) for (int bi = 0; bi < (vf_tier ? 5 : 4); bi++) for (int sd = 0; sd < (vf_tier ? 6 : 3); sd++) if (vf_mine() && !vf_expired()) { K.op = "mpss"; K.n = 3; mpz_set_si(K.v[0], PC[ci]); mpz_set_si(K.v[1], BL[bi]); mpz_set_si(K.v[2], sd); vf_run(&K); }
 		vf_bound_done("multi-party-ps"); }
+	if (vf_bound_on("context-hiding-homomorphic-all-shapes")) { for (unsigned ci = 0; ci < (vf_tier ? 2 : 1); ci++) for (long S = 1; S <= MS; S++) for (long L = 1; L <= ML; L++) for (int pat = 0; pat < 6; pat++) for (int bls = 0; bls < 2; bls++) { if (!vf_tier && pat >= 2 && pat != 5 && (S + L + pat) % 2) continue; if (vf_mine() && !vf_expired()) { K.op = "cmlhs"; K.n = 6; mpz_set_si(K.v[0], PC[ci]); mpz_set_si(K.v[1], S); mpz_set_si(K.v[2], L); mpz_set_si(K.v[3], pat); mpz_set_si(K.v[4], bls); mpz_set_si(K.v[5], S + L); vf_run(&K); } }
+		vf_bound_done("context-hiding-homomorphic-all-shapes"); }
+	if (vf_bound_on("cl-block")) { static const long ML_[] = {5, 0, 33}; for (unsigned ci = 0; ci < (vf_tier ? 2 : 1); ci++) for (long l = 1; l <= MB; l++) for (int sd = 0; sd < (vf_tier ? 3 : 1); sd++) for (int li = 0; li < (vf_tier ? 3 : 2); li++) if (vf_mine() && !vf_expired()) { K.op = "clb"; K.n = 4; mpz_set_si(K.v[0], PC[ci]); mpz_set_si(K.v[1], l); mpz_set_si(K.v[2], sd); mpz_set_si(K.v[3], ML_[li]); vf_run(&K); }
+		vf_bound_done("cl-block"); }
 	vf_stat_add("transitions", transitions); vf_stat_add("x.mutations_judged", nmut); vf_stat_add("x.oracle_accepts", nacc); vf_stat_add("x.oracle_rejects", nrej);
 }
 VF_MAIN()
